@@ -14,4 +14,9 @@ PROP_ASSUMPTIONS = {
         "the translator recognises the shape of FileId::new by token pattern (fetch_add(1, …) / load+store; `id & TAG == 0` test)",
         "thread-safety of shared Valid<Schema> (OnceLock, Send/Sync impls) is explored with real threads, not proved",
     ],
+    "C25": [
+        "HashMap get/insert of fragment depths modelled as an association list",
+        "valid documents have acyclic fragment spreads (executable validation), so fragments can be numbered topologically",
+        "selection tree → model encoding in harness/src/p25.rs (field names fields|interfaces|possibleTypes|inputFields ↦ list field)",
+    ],
 }
